@@ -381,17 +381,23 @@ class G:
         r = self.r
         n = r.choice([1, 2, 2, 3])
         strict_ok = kind in ("box_q", "box_d")
+        ends = []   # (variable, numerator, denominator) of every finite end used
         def box_cons():
             cs = []
             for i in range(n):
                 if r.random() < 0.15: continue
                 lo = r.randint(0, 2); hi = lo + r.randint(0, 2)
                 a = r.choice([1, 1, 2])
+                ends.extend([(i, lo, 1), (i, hi, 1), (i, 2 * lo + 1, 2), (i, 2 * hi - 1, 2)])
                 if r.random() < 0.85: cs.append(self.grid_con(n, [(i, a)], -a * lo if a == 1 or r.random() < 0.5 else -a * lo - 1, ">" if strict_ok and r.random() < 0.5 else ">="))
                 if r.random() < 0.85: cs.append(self.grid_con(n, [(i, -a)], a * hi if a == 1 or r.random() < 0.5 else a * hi + 1, ">" if strict_ok and r.random() < 0.5 else ">="))
             return cs or [self.grid_con(n, [(0, 1)], 0)]
         def touching_con(allow_multi=True):
             k = r.choice(["=", ">=", ">=", ">"] if strict_ok else ["=", ">=", ">="])
+            if ends and r.random() < (0.5 if allow_multi else 0.9):
+                # an interval constraint whose bound is exactly an end of the box:  s*d*x - s*num  k  0
+                (v, num, d) = r.choice(ends); sg = r.choice([1, -1]); m = r.choice([1, 1, 2])
+                return self.grid_con(n, [(v, sg * d * m)], -sg * num * m, k)
             if n > 1 and allow_multi and r.random() < 0.55:
                 vs = r.sample(range(n), r.randint(2, n))
                 terms = [(v, r.choice([-2, -1, 1, 1, 2, 3])) for v in vs]
